@@ -87,6 +87,12 @@ def combinators(ctx):
     big.append(("partial-bool-mask", 6, None, B.Partial(aff((3,)), jnp.asarray([True, False, True, False, False, True]), (6,))))
     big.append(("chain-8-layers", 3, None, B.Chain([aff((3,)), B.LeakyTanh(1.5, (3,)), aff((3,)), B.Invert(B.SoftPlus((3,))), B.SoftPlus((3,)), B.Flip((3,)), aff((3,)),
                                                    B.Permute(jnp.asarray([2, 0, 1]))])))
+    from flowjax.bijections import BlockAutoregressiveNetwork
+    big.append(("bnaf-net-depth2-cond", 2, 3, perturb(BlockAutoregressiveNetwork(jr.PRNGKey(8), dim=2, cond_dim=3, depth=2, block_dim=3), rng, 0.3)))
+    big.append(("bnaf-net-depth3-cond", 3, 2, perturb(BlockAutoregressiveNetwork(jr.PRNGKey(9), dim=3, cond_dim=2, depth=3, block_dim=2), rng, 0.3)))
+    from flowjax.bisection_search import AutoregressiveBisectionInverter
+    big.append(("bnaf-net-integer-search-bounds", 2, None, perturb(BlockAutoregressiveNetwork(
+        jr.PRNGKey(10), dim=2, depth=1, block_dim=3, inverter=AutoregressiveBisectionInverter(lower=-10, upper=10)), rng, 0.3)))
     big.append(("tri-affine-dim12-upper", 12, None, B.TriangularAffine(jnp.asarray(rng.normal(0, 1, 12)), jnp.asarray(rng.normal(0, 0.5, (12, 12)) + 2 * np.eye(12)), lower=False)))
     for i, item in enumerate(big):  # quick tier: half of them per run, rotating with the seed
         if not ctx.quick or (i + ctx.seed) % 2 == 0:
@@ -157,3 +163,52 @@ def int_dtype_unit(ctx, prop_tag, bijections=True, distributions=False):
                                             condition=None if c is None else np.asarray(c).tolist()),
                                   found_input=True, unit=u.name, broken=f"{prop_tag}: integer-dtype inputs")
                     break
+
+
+# ---------------------------------------------------------------- Transformed over unusual bases (hard-mode seeded change C03d)
+def base_variety_unit(ctx):
+    """The three identities of C03 on Transformed(base, bijection) for bases that override or specialise their own sampling /
+    joint methods (mixtures, StudentT, Gumbel, Uniform, LogNormal, a nested Transformed): implementation only."""
+    L = lv.lib()
+    jnp, jr, B = L["jnp"], L["jr"], L["B"]
+    import flowjax.distributions as D
+
+    rng = ctx.rng
+    u = ctx.unit("base-variety-oracle", "Transformed(base, bijection) for bases VmapMixture (overlapping components), StudentT, Gumbel, Uniform, LogNormal, "
+                                        "Laplace, nested Transformed x bijections Affine / coupling layer: sample_and_log_prob log-prob == log_prob(sample), "
+                                        "sample == transform(base sample) at the same key, log_prob == base log_prob(inverse) + inverse log-det")
+    import equinox as eqx
+    mix1 = D.VmapMixture(eqx.filter_vmap(D.Normal)(jnp.asarray([-0.5, 0.4, 1.0]), jnp.asarray([1.0, 0.7, 1.5])), weights=jnp.asarray([0.2, 0.5, 0.3]))
+    mix2 = D.VmapMixture(eqx.filter_vmap(lambda l: D.Normal(l, jnp.ones(2)))(jnp.asarray([[-0.5, 0.0], [0.6, 0.3]])), weights=jnp.asarray([1.0, 3.0]))
+    bases = [("VmapMixture1d", mix1), ("VmapMixture2d", mix2), ("StudentT", D.StudentT(jnp.asarray([3.0, 5.0]))), ("Gumbel", D.Gumbel(jnp.zeros(2), 1.3)),
+             ("Uniform", D.Uniform(jnp.asarray([-1.0, 0.0]), jnp.asarray([2.0, 0.5]))), ("LogNormal", D.LogNormal(jnp.zeros(2), 0.6)),
+             ("Laplace", D.Laplace(jnp.zeros(2), 2.0)), ("nested", D.Transformed(D.Normal(jnp.zeros(2)), B.Tanh((2,))))]
+    for bname, base in bases:
+        shape = base.shape
+        bijs = [("Affine", B.Affine(jnp.asarray(rng.normal(0, 1, shape)), jnp.asarray(np.exp(rng.normal(0, 0.5, shape)))))]
+        if shape == (2,):
+            bijs.append(("Coupling", perturb(B.Coupling(jr.PRNGKey(11), transformer=B.Affine(), untransformed_dim=1, dim=2, nn_width=5, nn_depth=1), rng, 0.5)))
+        for jname, bij in bijs:
+            d = D.Transformed(base, bij)
+            for rep in range(2):
+                key = jr.PRNGKey(int(rng.integers(0, 2**31)))
+                u.count((bname, jname, rep, int(ctx.seed)), tag=bname)
+                errs = []
+                try:
+                    x, lp = d.sample_and_log_prob(key)
+                    lp2 = d.log_prob(x)
+                    if np.isfinite(float(lp2)) and not abs(float(lp) - float(lp2)) <= 1e-8 * max(1.0, abs(float(lp2))):
+                        errs.append(f"sample_and_log_prob(key) returned log-prob {float(lp)!r} but log_prob(sample) = {float(lp2)!r}")
+                    xs = d.sample(key)
+                    if not np.allclose(np.asarray(xs), np.asarray(x), rtol=1e-12, atol=1e-12):
+                        errs.append(f"sample(key) = {np.ravel(xs).tolist()} differs from the point of sample_and_log_prob(key) = {np.ravel(x).tolist()}")
+                    z, ldi = bij.inverse_and_log_det(x)
+                    ref = float(base.log_prob(z)) + float(ldi)
+                    if np.isfinite(ref) and not abs(float(lp2) - ref) <= 1e-8 * max(1.0, abs(ref)):
+                        errs.append(f"log_prob(x) = {float(lp2)!r} but base.log_prob(inverse(x)) + inverse log-det = {ref!r}")
+                except Exception as e:  # noqa: BLE001
+                    errs.append(f"raised {type(e).__name__}: {str(e)[:100]}")
+                if errs:
+                    ctx.violation(sig=f"base-variety:{bname}:{jname}", what=f"Transformed({bname}, {jname}): " + "; ".join(errs),
+                                  case=dict(unit="base-variety-oracle", base=bname, bijection=jname, key=np.asarray(key).tolist()), found_input=True,
+                                  unit=u.name, broken="C03 identities on Transformed over this base")
